@@ -47,36 +47,39 @@ fn kb_frag_accept() {
     core::mem::forget(m);
 }
 
-fn check_segment(seg: &[u8], seq: u32, first_dts: u64) {
-    assert!(seg.len() >= 64 && seg[4] == b'm' && seg[5] == b'o' && seg[6] == b'o' && seg[7] == b'f');
-    assert!(be32_at(seg, 8) == 16 && seg[12] == b'm' && seg[13] == b'f' && seg[14] == b'h' && seg[15] == b'd');
-    assert!(be32_at(seg, 20) == seq);
-    let tfhd_size = be32_at(seg, 32) as usize;
-    assert!(tfhd_size >= 16 && tfhd_size <= 32);
-    let o = 32 + tfhd_size;
-    assert!(seg[o + 4] == b't' && seg[o + 5] == b'f' && seg[o + 6] == b'd' && seg[o + 7] == b't');
-    assert!(seg[o + 8] == 1);
-    assert!(be64_at(seg, o + 12) == first_dts);
+/// stand-in for the segment serialiser in the interleaving harness below: it records what flush_segment hands over
+/// (sequence number and base decode time) in the first 12 bytes and nothing else
+fn stub_media_segment(_samples: &[FragmentSample], sequence_number: u32, base_media_decode_time: u64, _timescale: u32) -> Vec<u8> {
+    let mut v = Vec::new();
+    v.extend_from_slice(&sequence_number.to_be_bytes());
+    v.extend_from_slice(&base_media_decode_time.to_be_bytes());
+    v
 }
 
-/// BOUNDED, PUBLIC API ONLY (two one-sample fragments, all u64 DTS): flush yields a segment iff something is queued, numbers the
-/// segments 1, 2 and stamps each with the DTS of its first sample; a write across the flush is still checked against the last accepted DTS.
+/// BOUNDED, PUBLIC API ONLY (write, write, flush, write; all u64 DTS; build_media_segment stubbed - the serialiser is proved in unit
+/// frag): the monotonicity reference is the last ACCEPTED DTS and survives a flush; the flush hands over sequence number 1 and the
+/// DTS of the first queued sample.
 #[kani::proof]
 #[kani::unwind(4)]
-fn kb_frag_flush() {
+#[kani::stub(build_media_segment, stub_media_segment)]
+fn kb_frag_flush_ref() {
     let mut m = FragmentedMuxer::new(frag_cfg());
-    assert!(m.flush_segment().is_none());
     let d0: u64 = kani::any();
-    assert!(m.write_video(d0, d0, &[0xAB], true).is_ok());
-    match m.flush_segment() { None => assert!(false), Some(seg) => { check_segment(&seg, 1, d0); core::mem::forget(seg); } }
-    assert!(m.flush_segment().is_none());
     let d1: u64 = kani::any();
+    let d2: u64 = kani::any();
+    assert!(m.write_video(d0, d0, &[0xAB], true).is_ok());
+    let mut last = d0;
     match m.write_video(d1, d1, &[0xCD], false) {
-        Ok(()) => {
-            assert!(d1 >= d0);
-            match m.flush_segment() { None => assert!(false), Some(seg) => { check_segment(&seg, 2, d1); core::mem::forget(seg); } }
-        }
-        Err(e) => { assert!(d1 < d0); core::mem::forget(e); assert!(m.flush_segment().is_none()); }
+        Ok(()) => { assert!(d1 >= d0); last = d1; }
+        Err(e) => { assert!(d1 < d0); core::mem::forget(e); }
+    }
+    match m.flush_segment() {
+        None => assert!(false),
+        Some(seg) => { assert!(seg.len() == 12 && be32_at(&seg, 0) == 1 && be64_at(&seg, 4) == d0); core::mem::forget(seg); }
+    }
+    match m.write_video(d2, d2, &[0xEF], false) {
+        Ok(()) => assert!(d2 >= last),
+        Err(e) => { assert!(d2 < last); core::mem::forget(e); }
     }
     core::mem::forget(m);
 }
